@@ -167,7 +167,7 @@ pub fn run_one(scn: Scenario, tape: Tape, seed: u64, extra: u64, trace_on: bool)
             let op = w.op_label;
             w.violate("C16", format!("unbounded-loop-without-io/op={op}"), msg.clone());
         } else if in_client || in_dep {
-            let short: String = msg.chars().take(60).map(|c| if c.is_ascii_alphanumeric() { c } else { '-' }).collect();
+            let short: String = msg.chars().take(60).map(|c| if c.is_ascii_digit() { '#' } else if c.is_ascii_alphanumeric() { c } else { '-' }).collect();
             let file = loc.rsplit('/').next().unwrap_or("").to_string();
             let inbound = loc.contains("/de/") || loc.contains("inbound") || loc.contains("properties") || loc.contains("varint");
             let prop = if inbound {
